@@ -75,12 +75,10 @@ def headIsSym : List Expr → Bool
 /-- `name.lower() in LIST_FUNCTIONS`: the first argument of these, when a symbol, is printed as a global variable (D2) -/
 def listFn (f : Name) : Bool := Lscr.listHas Gen.PropTables.listFunctions (Lscr.pyLower f)
 
-/-- a declared property whose name is in `ast.variable.KNOWN_PROPERTIES` is printed with that table's object (D1) -/
-def knownProp (n : Name) : Bool := Lscr.dictHas Gen.PropTables.knownPropertiesVariable n
-
 mutual
 /-- expressions of the JavaScript link theorems: the whole domain of `Link.Emb` (integers, strings, symbols, the four variable
-    kinds, unary and all 19 binary operators, `field`, plain function calls, linear lists) minus the three name clashes above -/
+    kinds, unary and all 19 binary operators, `field`, plain function calls, linear lists) minus the two name clashes above (reserved words, D3 = F141; symbol arguments of
+    list functions, D2 = F140) -/
 def JsOkE : Expr → Bool
   | .int _ => true
   | .str s => strOk s
@@ -88,7 +86,7 @@ def JsOkE : Expr → Bool
   | .var .loc n => n == "me".toList || jsIdOk n
   | .var .param n => n == "me".toList || jsIdOk n
   | .var .glob n => jsIdLex n
-  | .var .prop n => jsIdLex n && !knownProp n
+  | .var .prop n => jsIdLex n
   | .un _ a => JsOkE a
   | .bin _ a b => JsOkE a && JsOkE b
   | .field a => JsOkE a
